@@ -42,7 +42,7 @@ ASSUMPTIONS = [
 REQUIRED = ["ops_executed", "rechecks", "handle_reads", "node_writes", "detach_node", "detach_path",
             "detach_branch", "detach_compartment", "tree_copies", "independence_probes",
             "slices_checked", "index_errors_checked", "branch_segments_checked",
-            "tree_segments_checked", "adjacency_checked"]
+            "tree_segments_checked", "adjacency_checked", "pid_writes"]
 FLOOR = {"quick": 300, "thorough": 6000}
 SHARDS = {"quick": 8, "thorough": 16}
 
@@ -195,7 +195,7 @@ def _run_history(ctx, case):
 
     ops = ["node", "node", "write", "write", "write", "index", "slice", "col", "relatives",
            "path", "branch", "comp", "tree_segments", "adjacency", "detach_node", "detach_path",
-           "detach_branch", "detach_comp", "copy", "write_free", "write_free"]
+           "detach_branch", "detach_comp", "copy", "write_free", "write_free", "reparent"]
     for step in range(case["length"]):
         op = ops[int(rng.integers(0, len(ops)))]
         ctx.count("ops_executed")
@@ -223,6 +223,38 @@ def _run_history(ctx, case):
             W.cols[k][i] = v
             wrote += 1
             ctx.count("node_writes")
+        elif op == "reparent":
+            # a topology edit through a node handle: the owner's segments, relatives, paths and
+            # branches must follow (anything the tree cached before is now stale)
+            if n < 3:
+                continue
+            k = int(rng.integers(1, n))
+            sub = set(topo.descendants(W.ch, k))
+            cands = [j for j in range(n) if j not in sub and j != int(W.cols["pid"][k])]
+            if not cands:
+                continue
+            j = int(cands[int(rng.integers(0, len(cands)))])
+            nd = t.node(k) if rng.random() < .5 else t[k]
+            if rng.random() < .5:
+                nd.pid = j
+            else:
+                nd["pid"] = j
+            W.cols["pid"][k] = j
+            W.ch = topo.children_lists(W.cols["pid"])
+            ctx.count("pid_writes")
+            paths = [tuple(int(i) for i in p) for p in topo.paths(W.cols["pid"])]
+            brs = [tuple(int(i) for i in b) for b in topo.branches(W.cols["pid"])]
+            lib_paths = {tuple(int(i) for i in p.origin_id()): p for p in t.get_paths()}
+            lib_brs = {tuple(int(i) for i in b.origin_id()): b for b in t.get_branches()}
+            # handles on paths / branches / compartments taken before the edit described the old
+            # topology; they are dropped (node handles stay)
+            W.handles = [h for h in W.handles if h[0] == "node"]
+            segs = t.get_segments()
+            pairs = sorted((int(W.cols["pid"][i]), i) for i in range(n) if W.cols["pid"][i] >= 0)
+            got = sorted((int(s_.origin_id()[0]), int(s_.origin_id()[1])) for s_ in segs)
+            _need(got == pairs, "tree-segments",
+                  f"after node({k}).pid = {j}: tree segments {got[:5]} are not the (parent, child) "
+                  f"pairs {pairs[:5]}")
         elif op == "index":
             for bad in (n, -n - 1):
                 try:
